@@ -1,0 +1,13 @@
+//go:build verif
+
+// Contracts for the response side of the HTTP/2 server, checked by /verif/govc (comment-only file).
+package http2
+
+//@ -- C08: which statuses cannot carry a body (1xx, 204, 304). The derivation of the response header block in
+//@ -- responseWriterState.writeChunk is NOT under contract (named residue of C08): nearly all its callees are
+//@ -- unrestricted assumed contracts and the loop over the Trailer header ranges over an unnamed temporary.
+//@ pure func bodyOK(status int) bool = !(100 <= status && status <= 199) && status != 204 && status != 304
+//@ func bodyAllowedForStatus :: status -> r
+//@   props C08
+//@   assigns nothing
+//@   ensures [C08:statuses-that-cannot-carry-a-body] r <==> bodyOK(status)
